@@ -36,7 +36,10 @@ func zzWholeFrame(s []byte) bool {
 		return false
 	}
 	rl, n, ok := zzVbParse(s[1:])
-	return ok && 1+n+rl == len(s)
+	// the remaining length in its minimal form: a sequence with a padded
+	// length field is not a frame, and a decoder may reject it as soon as it
+	// has seen the padding
+	return ok && 1+n+rl == len(s) && (n == 1 || s[n] != 0)
 }
 
 // ZZ_C07_amode: a stream of a[0] arbitrary bytes that is exactly one frame
